@@ -161,38 +161,100 @@ Fixpoint strip_zeros (fuel : nat) (m s lo : N) : N * N :=
   | S f => if (lo <? s) && (m mod 10 =? 0) then strip_zeros f (m / 10) (s - 1) lo else (m, s)
   end.
 
-(* div: value only (the scale chosen by the crate is not modelled: results are compared as rationals).
-   Exact quotient when representable with scale <= 28, else half-even rounding at the largest fitting scale. *)
+(* div: rust_decimal 1.31 ops/div.rs transcribed at the level of integers. The three limb-size branches of div_impl (32, 64,
+   96-bit divisor) run the same abstract loop - quotient q, remainder r < D, scale - and differ only in how the limbs are
+   divided; the control flow (find_scale's overflow tables, rounding half-even on the last remainder, unscale_from_overflow,
+   the partial unscale with its cheap bit pre-tests, which is why quotients keep some trailing zeros) is kept exactly. *)
+Definition two64 : N := 18446744073709551616.
+Definition pov (i : N) : N := (two96 - 1) / pow10 (i + 1).      (* POWER_OVERFLOW_VALUES[i] *)
+Definition hi_of (q : N) : N := q / two64.
+Definition lo_of (q : N) : N := q mod two64.
+
+(* Buf12::find_scale (ops/common.rs:73): by how many powers of ten (at most 9) the quotient can still be scaled *)
+Definition find_scale (q : N) (scale : Z) : option N :=
+  let hi := hi_of q in let lo := lo_of q in
+  let fin (x : N) : option N := if (Z.of_N x + scale <? 0)%Z then None else Some x in
+  let bin (_ : unit) : option N :=
+    let x := if hi_of (pov 4) <? hi then
+               (if hi_of (pov 2) <? hi then (if hi_of (pov 1) <? hi then 1 else 2) else if hi_of (pov 3) <? hi then 3 else 4)
+             else if hi_of (pov 6) <? hi then (if hi_of (pov 5) <? hi then 5 else 6)
+             else if hi_of (pov 7) <? hi then 7 else 8 in
+    let x := if (hi =? hi_of (pov (x - 1))) && (lo_of (pov (x - 1)) <? lo) then x - 1 else x in
+    fin x in
+  if hi_of (pov 0) <? hi then (if (scale <? 0)%Z then None else Some 0)
+  else if (19 <? scale)%Z then
+    let x := Z.to_N (28 - scale) in
+    if hi <? hi_of (pov (x - 1)) then fin x else bin tt
+  else if (hi <? 4) || ((hi =? 4) && (lo <=? 5441186219426131129)) then Some 9
+  else bin tt.
+
+Inductive divst := DivDone (q : N) (scale : Z) (unsc : bool) | DivOverflow | DivFuel.
+
+(* unscale_from_overflow (div.rs:588): T >= 2^96 came out of an addition; divide by ten, round half-even with a sticky bit *)
+Definition unscale_from_overflow (t : N) (scale : Z) (sticky : bool) (unsc : bool) : divst :=
+  let scale := (scale - 1)%Z in
+  if (scale <? 0)%Z then DivOverflow else
+  let v := t / 10 in let r := t mod 10 in
+  let v := if (5 <? r) || ((r =? 5) && (sticky || N.odd v)) then v + 1 else v in
+  DivDone v scale unsc.
+
+Fixpoint div_loop (fuel : nat) (D q r : N) (scale : Z) (unsc : bool) : divst :=
+  match fuel with
+  | O => DivFuel
+  | S f =>
+      let step (p : N) (unsc : bool) : divst :=
+        let scale' := (scale + Z.of_N p)%Z in
+        let q' := q * pow10 p in
+        if two96 <=? q' then DivOverflow else
+        let r' := r * pow10 p in
+        let t := q' + r' / D in
+        let r'' := r' mod D in
+        if t <? two96 then div_loop f D t r'' scale' unsc
+        else unscale_from_overflow t scale' (negb (r'' =? 0)) unsc in
+      if r =? 0 then
+        (if (0 <=? scale)%Z then DivDone q scale unsc else step (N.min 9 (Z.to_N (- scale))) unsc)
+      else
+        let finish (_ : unit) : divst :=
+          (* no more scaling possible: round half-even on the remainder *)
+          let round := (D <? 2 * r) || ((2 * r =? D) && N.odd q) in
+          if round then
+            (if q + 1 <? two96 then DivDone (q + 1) scale true else unscale_from_overflow (q + 1) scale true true)
+          else DivDone q scale true in
+        if (scale =? 28)%Z then finish tt
+        else match find_scale q scale with
+             | None => DivOverflow
+             | Some p => if p =? 0 then finish tt else step p true
+             end
+  end.
+
+(* unscale (div.rs:636): trailing zeros are removed in chunks of 10^8 (only while the low 32 bits are all zero), then at most
+   once each 10^4, 10^2, 10^1, each behind a cheap test on the low bits *)
+Fixpoint unscale8 (fuel : nat) (q : N) (scale : Z) : N * Z :=
+  match fuel with
+  | O => (q, scale)
+  | S f => if (q mod 4294967296 =? 0) && (8 <=? scale)%Z && (q mod 100000000 =? 0)
+           then unscale8 f (q / 100000000) (scale - 8)%Z else (q, scale)
+  end.
+Definition unscale (q : N) (scale : Z) : N * Z :=
+  let '(q, scale) := unscale8 5 q scale in
+  let '(q, scale) := if (q mod 16 =? 0) && (4 <=? scale)%Z && (q mod 10000 =? 0) then (q / 10000, (scale - 4)%Z) else (q, scale) in
+  let '(q, scale) := if (q mod 4 =? 0) && (2 <=? scale)%Z && (q mod 100 =? 0) then (q / 100, (scale - 2)%Z) else (q, scale) in
+  if (q mod 2 =? 0) && (1 <=? scale)%Z && (q mod 10 =? 0) then (q / 10, (scale - 1)%Z) else (q, scale).
+
 Definition dec_div (a b : dec) : dres :=
   if is_zero b then DDivZero else
   if is_zero a then DOk dec_zero else
   let neg := xorb (dneg a) (dneg b) in
-  (* a/b = (ma * 10^(sb + 28)) / (mb * 10^sa) at scale 28, then one half-even rounding; representable iff no remainder *)
-  let num := dmant a * pow10 (dscale b + 56) in
-  let den := dmant b * pow10 (dscale a) in
-  (* value at scale 56, exact or not *)
-  let q := num / den in let r := num mod den in
-  if (r =? 0) then
-    let '(m, s) := strip_zeros 60 q 56 0 in
-    if (m <? two96) && (s <=? 28) then
-      let lo := if dscale b <=? dscale a then dscale a - dscale b else 0 in
-      let '(m', s') := strip_zeros 60 q 56 (N.max lo s) in
-      DOk (mk neg m' s')
-    else match fit_loop 60 q 56 28 with
-         | Some (v, s') => DRounded (mk neg v s')
-         | None => DOverflow
-         end
-  else
-    (* inexact at scale 56: round from the exact rational at the largest fitting scale *)
-    let fix go (fuel : nat) (s' : N) : dres :=
-      let n := dmant a * pow10 (dscale b + s') in
-      let v := rhe n den in
-      if v <? two96 then DRounded (mk neg v s')
-      else match fuel with
-           | O => DOverflow
-           | S f => if s' =? 0 then DOverflow else go f (s' - 1)
-           end in
-    go 30%nat 28.
+  let D := dmant b in
+  match div_loop 40 D (dmant a / D) (dmant a mod D) (Z.of_N (dscale a) - Z.of_N (dscale b))%Z false with
+  | DivDone q scale unsc =>
+      let '(q, scale) := if unsc then unscale q scale else (q, scale) in
+      let s' := Z.to_N scale in
+      (* exact iff q / 10^s' = (ma / 10^sa) / (mb / 10^sb) *)
+      if q * dmant b * pow10 (dscale a) =? dmant a * pow10 (dscale b) * pow10 s' then DOk (mk neg q s') else DRounded (mk neg q s')
+  | DivOverflow => DOverflow
+  | DivFuel => DAbstain
+  end.
 
 (* rem: truncated remainder, sign of the dividend *)
 Definition dec_rem (a b : dec) : dres :=
